@@ -5,13 +5,16 @@ From PV Require Import Base.MachineInt Model.Znx Model.Limbs Model.Flat Model.C0
 Open Scope Z_scope.
 
 Section PkCoeff.
-Variables wb b pb R : Z.
+Variables wb b pb : Z.
+Variable D : Z -> Prop.
 Variables size psize : nat.
-Hypothesis normalize_value_ok_small : normalize_value_ok (fun rb ab => normalize 64 rb ab 0) (2 ^ 62) R.
-Hypothesis normalize_value_ok_big : normalize_value_ok (bnorm wb) (2 ^ (wb - 2)) R.
+Hypothesis normalize_value_ok_small : normalize_value_ok_dom D (fun rb ab => normalize 64 rb ab 0) (2 ^ 62).
+Hypothesis normalize_value_ok_big : normalize_value_ok_dom D (bnorm wb) (2 ^ (wb - 2)).
 Hypothesis Hwb : 2 <= wb.
-Hypothesis Hb : 1 <= b <= R.
-Hypothesis Hpb : 1 <= pb <= R.
+Hypothesis Hb : D b.
+Hypothesis Hpb : D pb.
+Hypothesis Hb_pos : 1 <= b.
+Hypothesis Hpb_pos : 1 <= pb.
 
 Definition optval (P : Z) (m : option (list Z)) : Z := match m with Some p => lval P b size p | None => 0 end.
 
@@ -30,7 +33,7 @@ Proof.
   intros Hell HBp HBp' HX H2 He Hm HM Hh64 Henc.
   pose proof (pow2_pos (b - 1) ltac:(lia)) as Hpb1.
   assert (HE : 0 <= E) by lia.
-  destruct (terms_value wb b R size ell normalize_value_ok_big Hwb Hb Hell Bp 0 Xs ts HX HBp' H2) as (Ft & Lts & Vts).
+  destruct (terms_value wb b D size ell normalize_value_ok_big Hwb Hb Hb_pos Hell Bp 0 Xs ts HX HBp' H2) as (Ft & Lts & Vts).
   unfold sk_body_coeff in Henc.
   set (c0 := fold_left (fun c t => l_sub_assign 64 t c) ts (zeros size)) in Henc.
   destruct (fold_sub_nowrap 64 ltac:(lia) size (2 ^ (b - 1)) ltac:(lia) ts (zeros size) 0
